@@ -10,7 +10,7 @@ from . import gen
 from .api import HarnessError, load
 from .canon import (Mismatch, compare_outcomes, describe, outcome_class, outcome_digest, outcome_ok, outcome_raise,
                     shell_private_attrs, snap)
-from .faults import Ambient, SimFault, Tracer, ambient_state, choose_fault_event
+from .faults import Ambient, SimFault, Tracer, ambient_state, cheap_ambient, choose_fault_event
 from .oracles import check_normalised
 from .reference import Zygote
 from .simfs import RealFS, SimFS
@@ -168,6 +168,9 @@ class Run:
             bound.call()
             entry["noise"] = True
             return entry
+        if bound.kind == "W" and op["op"] == "update" and (op.get("fault") or op.get("env")) \
+                and getattr(bound, "mutate", None) is not None:
+            return self._faulted_update(bound, op, zr, entry)
         if bound.kind == "W":
             pre_args = snap(tuple(bound.args))
             out, value, changed, _ = self._call(bound, None)
@@ -176,9 +179,13 @@ class Run:
             if changed:
                 raise Violation(["C19"], "O1-ambient", bound.label, "state-building call changed error state: " + changed)
             if bound.importy or op["op"] == "query":
-                if snap(tuple(bound.args)) != pre_args:
+                post_args = snap(tuple(bound.args))
+                if post_args != pre_args:
+                    idx = [i for i, (a, b) in enumerate(zip(pre_args[2], post_args[2])) if a != b]
                     raise Violation(["C18", "C19"] if bound.importy else ["C19"], "O1-args", bound.label,
-                                    "argument differs after a (kept) call")
+                                    f"argument(s) {idx} differ after the call ({describe(out)}): "
+                                    f"{_short(pre_args[2][idx[0]] if idx else pre_args)} -> "
+                                    f"{_short(post_args[2][idx[0]] if idx else post_args)}")
             self._o2(bound, out, zr, "state-building call")
             if out[0] == "ok" and bound.post:
                 bound.post(value)
@@ -218,7 +225,7 @@ class Run:
             def sampler():
                 return (ambient_state(), tuple(hash(a.tobytes()) for a in watch))
 
-            dry = Tracer(self.api.pkgdir, target=None, sampler=sampler)
+            dry = Tracer(self.api.pkgdir, target=None, sampler=sampler, cheap=cheap_ambient)
             out, value = self._checked_call(bound, env, pre_args, pre_pool, tracer=dry, what="call")
             self._o2(bound, out, ref, "call (traced, no fault)")
             self._o5(bound, out, value, "call", env)
@@ -300,6 +307,79 @@ class Run:
         self.triples.add((bound.label, _env_class(env), outcome_class(out)))
         if out[0] == "ok" and isinstance(value, np.ndarray) and len(w.results) < 64:
             w.results.append(value)
+        return entry
+
+    def _faulted_update(self, bound, op, zr, entry):
+        """Parameter update whose renormalisation is aborted / runs under hostile ambient state.
+
+        The parameter change itself is the user's action.  ``assign_norm_cont`` may fail, but it must
+        not leave the shell's *parameters* or the ambient state changed; the next, undisturbed
+        renormalisation must give what the history-free world has.
+        """
+        from .canon import shell_snap
+
+        def params(sh):
+            return tuple(x for x in shell_snap(sh) if not (isinstance(x, tuple) and x and x[0] == "norm_cont"))
+
+        class _B:  # minimal bound for _call
+            pass
+
+        m = _B()
+        m.call = bound.mutate
+        out, touched, changed, _ = self._call(m, None)
+        if out[0] == "raise":
+            self._o2(bound, out, zr, "parameter update")
+            entry["out"] = outcome_digest(out)
+            entry["cls"] = outcome_class(out)
+            return entry
+        touched = bound.touched
+        before = [params(sh) for sh in touched]
+        env, fault = op.get("env"), op.get("fault")
+        r = _B()
+        r.call = bound.renorm
+
+        def check(what, o, amb_changed):
+            if amb_changed:
+                raise Violation(["C19"], "O1-ambient", "assign_norm_cont",
+                                f"process-wide error state differs after the {what} ({describe(o)}): {amb_changed}")
+            for sh, b in zip(touched, before):
+                if params(sh) != b:
+                    raise Violation(["C19"], "O1-renorm", "assign_norm_cont",
+                                    f"shell parameters differ after the {what} ({describe(o)}): "
+                                    f"{_short(b, 300)} -> {_short(params(sh), 300)}")
+
+        kinds = []
+        if fault and fault["kind"] == "line" and self.traced_events <= EVENT_BUDGET:
+            self.bump(self.configured, "line_fault")
+            dry = Tracer(self.api.pkgdir, target=None, sampler=ambient_state, cheap=cheap_ambient)
+            o, _, ch, _ = self._call(r, env, tracer=dry)
+            check("renormalisation", o, ch)
+            self.traced_events += dry.n
+            k, info = choose_fault_event(dry.events, dry.dirty, fault["strategy"], fault["d"])
+            if k is not None:
+                ft = Tracer(self.api.pkgdir, target=k)
+                o, _, ch, _ = self._call(r, env, tracer=ft)
+                if ft.fired:
+                    self.bump(self.fired, "line_fault")
+                    self.bump(self.stats, "probe_renormalisation_aborted")
+                    self.fault_sites.add(("assign_norm_cont", "%s:%d" % (ft.fired[0], ft.fired[1])))
+                    kinds.append("line_fault")
+                check("aborted renormalisation", o, ch)
+                entry["fault"] = ["%s:%d" % (ft.fired[0], ft.fired[1]) if ft.fired else None, outcome_class(o)]
+        elif env:
+            o, _, ch, _ = self._call(r, env)
+            if o[0] == "raise":
+                self.bump(self.stats, "probe_renormalisation_raised_under_hostile_state")
+            check("renormalisation under hostile ambient state", o, ch)
+        # undisturbed renormalisation: must agree with the history-free world and be unit-normalised
+        o, value, ch, _ = self._call(r, None)
+        check("renormalisation", o, ch)
+        self._o2(bound, o, zr, "renormalisation after an aborted one")
+        if o[0] == "ok":
+            self._o4(touched, bound.label)
+        entry["out"] = outcome_digest(o)
+        entry["cls"] = outcome_class(o)
+        entry["kinds"] = kinds
         return entry
 
     # ------------------------------------------------------------------ whole history
